@@ -604,6 +604,7 @@ func (pk *Packet) DisconnectDecode(buf []byte) error {
 
 // PingreqEncode encodes a Pingreq packet.
 func (pk *Packet) PingreqEncode(buf *bytes.Buffer) error {
+	pk.FixedHeader.Remaining = 0 // a PINGREQ has no variable header and no payload
 	pk.FixedHeader.Encode(buf)
 	return nil
 }
@@ -615,6 +616,7 @@ func (pk *Packet) PingreqDecode(buf []byte) error {
 
 // PingrespEncode encodes a Pingresp packet.
 func (pk *Packet) PingrespEncode(buf *bytes.Buffer) error {
+	pk.FixedHeader.Remaining = 0 // a PINGRESP has no variable header and no payload
 	pk.FixedHeader.Encode(buf)
 	return nil
 }
